@@ -2,10 +2,20 @@
   Core G (C09): (1) the result mapping of `loader.Load` / `Loader.LoadMany`
   (loader/loader_latest.go:110-162) and the batch pipeline of `PretouchMany`
   (encoder/pools_amd64.go:95-164, decoder/jitdec/decoder.go:151-219);
-  (2) the codec cache seen as a history machine: keyed by type, while the compiled
-  program depends on (type, context) - context = pointer-value-ness `pv` of the first use and the
-  compile options of the first use (encoder/vars/cache.go:32, encoder/compiler.go:137-165).
+  (2) the codec cache seen as a history machine.
   Core Lean only.
+
+  The top-level definitions follow the code AS IT IS NOW:
+    * `Load` remembers the entry offsets by POSITION before `makeModuledata` sorts `funcs` in place
+      (fix 9e7dce3) and builds `out[i]` from `offs[i]`;
+    * the pretouch pipelines keep `entries` and `items` as parallel slices and register `loaded[i]` for
+      `entries[i].vt`;
+    * the encoder program cache is selected by pointer-value-ness (`cacheFor(pv)`, fix e042f54), i.e. the
+      cache key is the whole request (type, pv); the decoder caches are keyed by type and compile from
+      the type alone.
+  Namespace `PreFix` keeps the models of the code BEFORE those fixes (results matched by function name;
+  cache keyed by type only) as regression documentation: "if the code went back to that shape, this is
+  the witness" - see the `PreFix.*` theorems of Props/C09.lean.
 -/
 namespace SonicSpec.Conc
 
@@ -17,18 +27,9 @@ structure Func where
   entryOff : Nat
 deriving DecidableEq, Repr
 
-/-- loader_latest.go:153-160, inner loop: `for _, f := range funcs { if f.Name == s { out[i] = text+f.EntryOff } }`
-    - no `break`, the LAST function with that name wins.  `none` = `out[i]` never assigned. -/
-def findEntry (text : Nat) (funcs : List Func) (s : String) : Option Nat :=
-  funcs.foldl (fun out f => if f.name = s then some (text + f.entryOff) else out) none
-
-/-- outer loop: `for i, s := range ids` -/
-def mapBack (text : Nat) (ids : List String) (funcs : List Func) : List (Option Nat) :=
-  ids.map (findEntry text funcs)
-
 /-- insertion into a list sorted by entry offset (stand-in for `sort.Slice(funcs, EntryOff <)` in
     `makeModuledata`, funcdata_compat.go:316 / moduledata.go:209; `sort.Slice` is not stable, the
-    theorems therefore hold for EVERY permutation of `funcs`) -/
+    theorems therefore hold for EVERY list the sort may leave in `funcs`) -/
 def insertByEntry (f : Func) : List Func → List Func
   | [] => [f]
   | g :: r => if f.entryOff < g.entryOff then f :: g :: r else g :: insertByEntry f r
@@ -37,10 +38,14 @@ def sortByEntry : List Func → List Func
   | [] => []
   | f :: r => insertByEntry f (sortByEntry r)
 
-/-- `Load(text, funcs, …)` (loader_latest.go:138): ids taken BEFORE `makeModuledata` sorts `funcs`
-    in place, results mapped back by name afterwards.  `text` = address of the mapped text segment. -/
-def load (text : Nat) (funcs : List Func) : List (Option Nat) :=
-  mapBack text (funcs.map (·.name)) (sortByEntry funcs)
+/-- `Load` (loader_latest.go:138-161): `offs[i] = funcs[i].EntryOff` is taken BEFORE `makeModuledata`
+    sorts `funcs` in place; afterwards `out[i] = mod.text + offs[i]`.  `sorted` is whatever the sort
+    left in `funcs` - the mapping no longer looks at it.  `text` = address of the text segment. -/
+def loadWith (text : Nat) (funcs : List Func) (_sorted : List Func) : List Nat :=
+  let offs := funcs.map (·.entryOff)
+  offs.map (fun off => text + off)
+
+def load (text : Nat) (funcs : List Func) : List Nat := loadWith text funcs (sortByEntry funcs)
 
 /-- `LoadOneItem`, the fields that matter: name and length of the machine code -/
 structure Item where
@@ -53,7 +58,7 @@ def layout : List Item → Nat → List Func
   | [], _ => []
   | it :: r, off => { name := it.name, entryOff := off } :: layout r (off + it.size)
 
-def loadMany (text : Nat) (items : List Item) : List (Option Nat) := load text (layout items 0)
+def loadMany (text : Nat) (items : List Item) : List Nat := load text (layout items 0)
 
 /-- a Go type as the pretouch pipeline sees it: identity (`*rt.GoType`) and `vt.String()` -/
 structure Ty where
@@ -61,11 +66,19 @@ structure Ty where
   str : String
 deriving DecidableEq, Repr
 
-/-- `pretouchRec*`: one item per pending type, `FuncName = prefix + vt.String()`; after `LoadMany`
-    entry `i` is cached for type `i` (`ComputeProgram(p.vt, … loaded[i])`).  Result: the association
-    type → code address. -/
-def pretouchBatch (pfx : String) (text : Nat) (tys : List (Ty × Nat)) : List (Ty × Option Nat) :=
-  (tys.map (·.1)).zip (loadMany text (tys.map fun (t, sz) => { name := pfx ++ t.str, size := sz }))
+/-- offsets of the items of a batch: running sums of the code sizes -/
+def offsets : List Nat → Nat → List Nat
+  | [], _ => []
+  | sz :: r, off => off :: offsets r (off + sz)
+
+/-- `pretouchRec*` (encoder/pools_amd64.go:145-161, jitdec/decoder.go:200-216): `pendings` is walked once,
+    in whatever order the map iteration yields (= the order of `tys`), appending to the PARALLEL slices
+    `entries` and `items` (`FuncName = prefix + vt.String()`); after `LoadMany(items)` the function
+    `loaded[i]` is registered for `entries[i].vt`.  Result: the association type → code address. -/
+def pretouchBatch (pfx : String) (text : Nat) (tys : List (Ty × Nat)) : List (Ty × Nat) :=
+  let entries := tys.map (·.1)
+  let items := tys.map fun (t, sz) => ({ name := pfx ++ t.str, size := sz } : Item)
+  entries.zip (loadMany text items)
 
 /-! ### the cache as a history machine -/
 
@@ -76,18 +89,65 @@ def assoc {β : Type} (k : τ) : List (τ × β) → Option β
   | [] => none
   | (k', v) :: r => if k' = k then some v else assoc k r
 
-/-- `FindOrCompile(vt, ctx)`: the cache is asked with the type only; on a miss the program is compiled
-    for the context of THIS request and stored under the type -/
+end Hist
+
+section HistNow
+variable {τ χ π : Type} [DecidableEq τ] [DecidableEq χ]
+
+/-- `FindOrCompile(vt, pv)` (encoder/vars/cache.go:39-48 with `cacheFor(pv)`): the cache is asked with the
+    whole request (type, context); on a miss the program is compiled for exactly this request and stored
+    under it.  (Decoder caches: χ = Unit.) -/
+def serve (compile : τ → χ → π) (cache : List ((τ × χ) × π)) (r : τ × χ) : π × List ((τ × χ) × π) :=
+  match assoc r cache with
+  | some p => (p, cache)
+  | none => (compile r.1 r.2, (r, compile r.1 r.2) :: cache)
+
+/-- the cache after a history of requests -/
+def runHist (compile : τ → χ → π) (c : List ((τ × χ) × π)) (h : List (τ × χ)) : List ((τ × χ) × π) :=
+  h.foldl (fun c r => (serve compile c r).2) c
+
+/-- the program that serves request `r` after history `h`, starting from an empty cache (fresh process) -/
+def servedAfter (compile : τ → χ → π) (h : List (τ × χ)) (r : τ × χ) : π :=
+  (serve compile (runHist compile [] h) r).1
+
+end HistNow
+
+/-! ### models of the code BEFORE the fixes (regression documentation) -/
+namespace PreFix
+
+/-- old loader_latest.go:153-160, inner loop: `for _, f := range funcs { if f.Name == s { out[i] = text+f.EntryOff } }`
+    - no `break`, the LAST function with that name wins.  `none` = `out[i]` never assigned. -/
+def findEntry (text : Nat) (funcs : List Func) (s : String) : Option Nat :=
+  funcs.foldl (fun out f => if f.name = s then some (text + f.entryOff) else out) none
+
+/-- outer loop: `for i, s := range ids` -/
+def mapBack (text : Nat) (ids : List String) (funcs : List Func) : List (Option Nat) :=
+  ids.map (findEntry text funcs)
+
+/-- old `Load`: ids taken BEFORE the sort, results mapped back BY NAME afterwards -/
+def load (text : Nat) (funcs : List Func) : List (Option Nat) :=
+  mapBack text (funcs.map (·.name)) (sortByEntry funcs)
+
+def loadMany (text : Nat) (items : List Item) : List (Option Nat) := load text (layout items 0)
+
+/-- the pretouch pipeline over the by-name loader; also the shape of a pipeline that remembers batch
+    positions in a map keyed by `FuncName` (last position wins) instead of parallel slices -/
+def pretouchBatch (pfx : String) (text : Nat) (tys : List (Ty × Nat)) : List (Ty × Option Nat) :=
+  (tys.map (·.1)).zip (loadMany text (tys.map fun (t, sz) => { name := pfx ++ t.str, size := sz }))
+
+section Hist
+variable {τ χ π : Type} [DecidableEq τ]
+
+/-- old `FindOrCompile(vt, ctx)`: the cache is asked with the type ONLY; on a miss the program is
+    compiled for the context of THIS request and stored under the type -/
 def serve (compile : τ → χ → π) (cache : List (τ × π)) (r : τ × χ) : π × List (τ × π) :=
   match assoc r.1 cache with
   | some p => (p, cache)
   | none => (compile r.1 r.2, (r.1, compile r.1 r.2) :: cache)
 
-/-- the cache after a history of requests, starting empty (fresh process) -/
 def runHist (compile : τ → χ → π) (c : List (τ × π)) (h : List (τ × χ)) : List (τ × π) :=
   h.foldl (fun c r => (serve compile c r).2) c
 
-/-- the program that serves request `r` after history `h` -/
 def servedAfter (compile : τ → χ → π) (h : List (τ × χ)) (r : τ × χ) : π :=
   (serve compile (runHist compile [] h) r).1
 
@@ -97,5 +157,6 @@ def firstCtx (t : τ) : List (τ × χ) → Option χ
   | (t', c) :: r => if t' = t then some c else firstCtx t r
 
 end Hist
+end PreFix
 
 end SonicSpec.Conc
